@@ -1,5 +1,27 @@
 /-
-  T15 — translator tie for C15.
+  T15 — translator tie for C15 (a file writer's output depends only on its own inputs).
+
+  lean/Gen/SrcC15.lean is regenerated on every run by harness/translate/src_c15.py from the CURRENT source of
+    commonroad/common/writer/file_writer_interface.py, file_writer_xml.py, file_writer_protobuf.py,
+    commonroad/common/file_writer.py, commonroad/common/util.py (FileFormat).
+  This module proves every generated definition equal to the hand model CRModel/WriterSM.lean the C15 theorems are about:
+
+  functional (method body = program in `CR.PyW.M (St …)`, CRModel/PyExtC15.lean), for all arguments and all states:
+    tie_handle_file_path            FileWriter._handle_file_path            = handleFilePath
+    tie_own_decimal_precision       FileWriter._own_decimal_precision       = withOwnPrecision repaired   (any with-block)
+    tie_xml_write_to_file           XMLFileWriter.write_to_file             = writeStep repaired … .full          (XML writer)
+    tie_xml_write_scenario_to_file  XMLFileWriter.write_scenario_to_file    = writeStep repaired … .scenarioOnly  (XML writer)
+    tie_pb_write_to_file            ProtobufFileWriter.write_to_file        = writeStep repaired … .full          (protobuf writer)
+    tie_pb_write_scenario_to_file   ProtobufFileWriter.write_scenario_to_file (+ _serialize_write_msg)
+    tie_facade_write_to_file / tie_facade_write_scenario_to_file   CommonRoadFileWriter.* = step repaired (.write …), any live writer
+    tie_suffix, tie_overwrite_modes _get_suffix / FileFormat values, OverwriteExistingFile members
+  structural (ordered table of state accesses = the model's table `Tables.*`, compared completely):
+    tie_ctor_accesses, tie_xml_ctor_accesses, tie_pb_ctor_accesses, tie_facade_ctor_accesses,
+    tie_{xml,pb}_{header,scenario,planning}_accesses
+
+  `other` is what the user types when it is not "n" (hypothesis `other ≠ "n"`); `hw : st.ws[i]? = some w` says the method
+  is called on a live writer object, `hf` that it is of the class the method belongs to.
+  The helper lemmas (`seq_full`, `xml_build_full`, …) relate the translated statement sequences to `buildDocument` / `buildFor`.
 -/
 import Gen.SrcC15
 import CRProofs.WriterSM
